@@ -1,4 +1,94 @@
-import BoboVerif.Model.Decider
-/-! C06 — placeholder header; theorems follow. -/
-namespace Bobo.Decider
-end Bobo.Decider
+import BoboVerif.Props.C04
+/-!
+C06 — Link failures lose nothing: backlog or full resync restores consistency.
+
+Network level (Lemmas/Net.lean, per run key).  A failed send leaves the message
+in the sender's backlog (it stays "in flight"); a send that fails after delivery
+is a delivery WITHOUT removal; an outage is simply the absence of deliveries.
+So every sequence of send failures, timeouts and outages is a schedule of `Net`
+steps, and `net_inv_every_step` (C04) applies to all of them.  What C06 adds:
+
+* `resync_supersedes`: a RESYNC drops the whole backlog towards a peer and
+  sends a snapshot instead — the invariant "everything i announced is known to
+  j or on its way to j" survives that, because an instance knows at least what
+  it announced (J4) and the snapshot carries everything it knows;
+* `failed_resync_pending`: if that RESYNC fails the pair is marked
+  resync-pending, and only a successful snapshot clears the mark
+  (`pending_cleared_only_by_snapshot`), i.e. the next message can only be a
+  snapshot — the code side of this is C15's `resync_only`: once the resync period
+  has elapsed mode selection returns RESYNC or nothing, never SYNC or PING;
+* `heal_converges`: whenever, after healing, nothing is in flight or pending,
+  all instances agree — nothing stale, missing or resurrected.
+
+The accounting of ONE outgoing pass (`outIter_accounts`: the queue item consumed
+is, per peer, on the wire, appended to the backlog, or the peer is in the resync
+period) is proved on the outgoing-loop model in Props/C15.lean / Lemmas/Tcp.lean.
+-/
+namespace Bobo.Net
+open Bobo.Lattice
+
+/-- dropping the backlog is safe when a snapshot replaces it. -/
+theorem resync_supersedes {n : Nat} (s : St n) (h : Inv s) (i j : Fin n) (hij : i ≠ j) :
+    (step s (.resync i j true)).pending i j = false ∧
+    (step s (.resync i j true)).own i ≤
+      join ((step s (.resync i j true)).know j) (joinAll ((step s (.resync i j true)).flight i j)) := by
+  have hinv := inv_step s h (.resync i j true)
+  have hp : (step s (.resync i j true)).pending i j = false := by simp [step, upd2]
+  refine ⟨hp, ?_⟩
+  rcases hinv.j1 i j hij with hpend | hle
+  · rw [hp] at hpend; exact absurd hpend (by decide)
+  · exact hle
+
+/-- a failed RESYNC leaves the pair resync-pending (the backlog is gone, only a snapshot can follow). -/
+theorem failed_resync_pending {n : Nat} (s : St n) (i j : Fin n) :
+    (step s (.resync i j false)).pending i j = true ∧ (step s (.resync i j false)).flight i j = [] := by
+  simp [step, upd2]
+
+/-- only a successful snapshot clears the mark. -/
+theorem pending_cleared_only_by_snapshot {n : Nat} (s : St n) (st : Step n) (i j : Fin n)
+    (hp : s.pending i j = true) (hc : (step s st).pending i j = false) : st = .resync i j true := by
+  cases st with
+  | say a d => simp [step] at hc; rw [hp] at hc; exact absurd hc (by decide)
+  | deliver a b k r =>
+    simp only [step] at hc
+    split at hc <;> (rw [hp] at hc; exact absurd hc (by decide))
+  | snapshot a b => simp [step] at hc; rw [hp] at hc; exact absurd hc (by decide)
+  | resync a b ok =>
+    cases ok
+    · simp only [step, Bool.false_eq_true, if_false, upd2] at hc
+      split at hc
+      · simp at hc
+      · rw [hp] at hc; exact absurd hc (by decide)
+    · simp only [step, if_true, upd2] at hc
+      split at hc
+      · rename_i e; obtain ⟨e1, e2⟩ := e; subst e1 e2; rfl
+      · rw [hp] at hc; exact absurd hc (by decide)
+
+/-- after any fault sequence: once healed and quiescent, every instance holds the join of everything
+announced — no run is left stale or missing. -/
+theorem heal_converges {n : Nat} (steps : List (Step n)) (hq : Quiescent (run (init n) steps)) (j : Fin n) :
+    (run (init n) steps).know j = allOwn (run (init n) steps) :=
+  quiescent_know_eq _ (net_inv_every_step steps) hq j
+
+/-- … and no status is ever lost on the way (nothing is resurrected: knowledge only grows). -/
+theorem know_monotone {n : Nat} (s : St n) (st : Step n) (j : Fin n) : s.know j ≤ (step s st).know j := by
+  cases st with
+  | say i d =>
+    simp only [step, upd]; split
+    · rename_i e; subst e; exact le_join_left _ _
+    · exact le_refl _
+  | deliver a b k r =>
+    simp only [step]
+    split
+    · exact le_refl _
+    · simp only [upd]; split
+      · rename_i e; subst e; exact le_join_left _ _
+      · exact le_refl _
+  | snapshot a b => exact le_refl _
+  | resync a b ok => cases ok <;> exact le_refl _
+
+/-! non-vacuity: an outage — the backlog is dropped, the first resync fails, the second succeeds -/
+example : (run (init 2) [.say 0 (active 1 1), .say 0 halted, .resync 0 1 false, .resync 0 1 true,
+    .deliver 0 1 0 true]).know 1 = halted := by decide
+
+end Bobo.Net
